@@ -848,6 +848,15 @@ class _token_runner:
                 and braces == 0
             ):
                 return
+            # A closing bracket that was not opened in here, or a ";", ends the expression too
+            # (`[lambda x: x]`, `{"k": lambda x: x}`, `f = lambda x: x; ...`)
+            if t.type == tokenize.OP and (
+                (t.string == ")" and parens == 0)
+                or (t.string == "]" and brackets == 0)
+                or (t.string == "}" and braces == 0)
+                or (t.string == ";" and parens == 0 and brackets == 0 and braces == 0)
+            ):
+                return
 
             # Track things that could fool us
             if t.type == tokenize.OP:
@@ -1115,7 +1124,14 @@ def _parse_source_for_lambda(
             lambda_starts_on_line = lambda_line + start_token.start[0]
             lambda_starts_at_col = start_token.start[1]
             directly_called = getattr(t_stream, "directly_called", False)
-            lda, saw_new_line = _get_lambda_in_stream(t_stream, start_token)
+            try:
+                lda, saw_new_line = _get_lambda_in_stream(t_stream, start_token)
+            except (SyntaxError, tokenize.TokenError, IndexError):
+                # Some other lambda further along that does not end at a "," or ")" - `g =
+                # lambda x: x` at the end of the line: not an argument of a call.
+                if sum(len(v) for v in lambdas_on_a_line.values()) == 0:
+                    raise
+                break
             if directly_called:
                 first_argument_of_its_call.append(id(lda))
             # A lambda that starts on another line can't be the one we were handed (we might
